@@ -9,7 +9,7 @@
 
    Every reducer is the algorithm the Python runs, including what it does on None, on missing keys and
    on mixed types (TypeError / ValueError are explicit results). No proofs here. *)
-From Coq Require Import List Bool Arith ZArith.
+From Coq Require Import List Bool Arith ZArith String.
 Import ListNotations.
 From Stab.model Require Import Base.
 Local Open Scope Z_scope.
@@ -65,6 +65,14 @@ Arguments RErr {A} e.
 (* the registry _BUILTIN_REDUCERS; RUnknown stands for any name get_reducer() does not know *)
 Inductive rname : Type :=
   RCollect | RAppend | RExtend | RSum | RMax | RMin | RMerge | RFirst | RLast | RUnknown.
+
+(* get_reducer(name): the built-in registry (no custom reducer is registered in the modelled system) *)
+Definition rname_of_string (s : string) : rname :=
+  if String.eqb s "collect" then RCollect else if String.eqb s "append" then RAppend
+  else if String.eqb s "extend" then RExtend else if String.eqb s "sum" then RSum
+  else if String.eqb s "max" then RMax else if String.eqb s "min" then RMin
+  else if String.eqb s "merge" then RMerge else if String.eqb s "first" then RFirst
+  else if String.eqb s "last" then RLast else RUnknown.
 
 (* _collect: a list value is extended, anything else (None included) is appended *)
 Definition red_collect (vs : list value) : list atom :=
